@@ -123,6 +123,8 @@ def cases(rng, tier):
         e, t = rand_tree(rng, rng.randint(0, 4 if tier == 'quick' else 6))
         yield Case(program=render(e), stdin=rng.choice(STDINS), tag='tree', monitor='c07_sim', data=t, nontrivial=e[0] == 'call' and len(render(e)) > 30)
     g = gen.Gen(rng, max_depth=3)
+    g.neg_rel = False        # `pure` is embedded under one more function definition: outermost-relative frames would shift
+    from .. import values as VL
     for _ in range(n // 4):
         stdin = rng.choice(STDINS)
         m, _ = rand_tree(rng, 2)
@@ -136,7 +138,9 @@ def cases(rng, tier):
         # monad laws up to observable behaviour
         k = fundef(bi('ㄱㄹ', bi('ㅈㄹ', bi('ㅁㅈ', bi('ㅈㄷ', bi('ㅁㄹ', arg(0))))), fundef(bi('ㄱㅅ', arg(0, 1)))))
         h = fundef(bi('ㄱㅅ', bi('ㅁㄹ', arg(0))))
-        v = g.gen(rng.choice(['int', 'str', 'bool']), None, 2)
+        # the laws are about *values*: v is a constructed, total value (ㄱㅅ is strict in its payload, so a failing
+        # or non-terminating expression in its place is outside the law)
+        v = VL.rand_value(rng, 1, ['int', 'str', 'bool', 'float', 'list', 'nil']).expr
         yield Case(program=render(bi('ㄱㄹ', bi('ㄱㅅ', v), k)), variants=(render(call(k, v)),), stdin=stdin, tag='left-identity')
         yield Case(program=render(bi('ㄱㄹ', m, raw('ㄱㅅ'))), variants=(render(m),), stdin=stdin, tag='right-identity')
         yield Case(program=render(bi('ㄱㄹ', bi('ㄱㄹ', m, k), h)),
